@@ -4,6 +4,10 @@
 // heap), sanity_check(); extracted elements are removed from the model by identity.
 // tlx's own asserts are enabled (no NDEBUG) and act as additional monitors.
 #include <verif.hpp>
+
+#include <deque>
+#include <iterator>
+#include <memory>
 #include <tracked.hpp>
 
 #include <limits>
@@ -16,6 +20,28 @@
 #include <tlx/container/radix_heap.hpp>
 
 using verif::Rng;
+
+//! a genuine single-pass input range (like std::istream_iterator): copies share the source, and what one
+//! copy has consumed is gone for all of them; the parameter is called InputIterator, after all
+template <typename K>
+struct SinglePassIt {
+    typedef std::input_iterator_tag iterator_category;
+    typedef K value_type;
+    typedef std::ptrdiff_t difference_type;
+    typedef const K* pointer;
+    typedef const K& reference;
+    std::shared_ptr<std::deque<K> > src;   // empty or null = end of the range
+    SinglePassIt() {}
+    explicit SinglePassIt(const std::vector<K>& v) : src(v.empty() ? nullptr : new std::deque<K>(v.begin(), v.end())) {}
+    bool at_end() const { return !src || src->empty(); }
+    reference operator*() const { return src->front(); }
+    pointer operator->() const { return &src->front(); }
+    SinglePassIt& operator++() { src->pop_front(); return *this; }
+    struct Proxy { K v; const K& operator*() const { return v; } };
+    Proxy operator++(int) { Proxy p{ src->front() }; src->pop_front(); return p; }
+    friend bool operator==(const SinglePassIt& a, const SinglePassIt& b) { return a.at_end() == b.at_end(); }
+    friend bool operator!=(const SinglePassIt& a, const SinglePassIt& b) { return !(a == b); }
+};
 using verif::Tracked;
 
 static uint64_t g_ops = 0;
@@ -172,7 +198,8 @@ struct DAryDriver {
         }
         else if (r < 84) {
             unsigned w = (unsigned)rng.below(3);
-            if (w == 0) { std::vector<K> v = fresh_list(); trace.push_back("build_heap(it," + std::to_string(v.size()) + ")"); h->build_heap(v.begin(), v.end()); }
+            if (w == 0 && rng.coin()) { std::vector<K> v = fresh_list(); trace.push_back("build_heap(single-pass input iterators," + std::to_string(v.size()) + ")"); h->build_heap(SinglePassIt<K>(v), SinglePassIt<K>()); }
+            else if (w == 0) { std::vector<K> v = fresh_list(); trace.push_back("build_heap(it," + std::to_string(v.size()) + ")"); h->build_heap(v.begin(), v.end()); }
             else if (w == 1) { std::vector<K> v = fresh_list(); trace.push_back("build_heap(const&," + std::to_string(v.size()) + ")"); h->build_heap(v); }
             else { std::vector<K> v = fresh_list(); trace.push_back("build_heap(&&," + std::to_string(v.size()) + ")"); h->build_heap(std::move(v)); }
             check("build_heap");
@@ -292,6 +319,15 @@ struct AddrDriver {
     void op() {
         ++g_ops;
         unsigned r = (unsigned)rng.below(100);
+        if (rng.chance(1, 25)) {
+            // reserve() in the middle of a history, also with fewer keys than are stored / than the largest stored key
+            size_t n = rng.coin() ? rng.below(N + 4) : rng.below(8);
+            trace.push_back("reserve(" + std::to_string(n) + ")");
+            h->reserve(n);
+            check("reserve");
+            verif::count("addr_reserve_mid_history");
+            return;
+        }
         if (r < 30) {
             KT k;
             if (!pick_absent(k)) return;
@@ -342,7 +378,8 @@ struct AddrDriver {
             std::vector<KT> v = subset();
             unsigned w = (unsigned)rng.below(3);
             trace.push_back(std::string("build_heap[") + (w == 0 ? "it" : w == 1 ? "const&" : "&&") + "](" + verif::join_range(v.begin(), v.end()) + ")" + (nonempty ? " on non-empty heap" : ""));
-            if (w == 0) h->build_heap(v.begin(), v.end());
+            if (w == 0 && rng.coin()) { trace.back() += " through single-pass input iterators"; h->build_heap(SinglePassIt<KT>(v), SinglePassIt<KT>()); }
+            else if (w == 0) h->build_heap(v.begin(), v.end());
             else if (w == 1) h->build_heap(v);
             else h->build_heap(std::move(v));
             check("build_heap");
